@@ -70,14 +70,22 @@ Fixpoint fs_construct_comps (ts : list N) (o : list (N * list op)) : res bytes :
 Definition fs_opt_prefix (t : N) (p : option (N * N)) : res bytes :=
   match p with None => Ok [] | Some p => bind (fs_construct_prefix p) (fun b => Ok (t :: b)) end.
 
-(** construct_nlri: None for an empty rule (the caller then fails on bytes += None) *)
+(** the length prefix construct_nlri puts in front of the components of one rule (RFC 8955 4.1):
+    one octet below 240 octets, 0xf000 | length on two octets from 240 to 4095, ValueError above;
+    None for an empty rule (the caller then fails on bytes += None) *)
+Definition fs_len_threshold : N := 240.
+Definition fs_len_max : N := 4095.
+Definition fs_frame (b : bytes) : res bytes :=
+  if fs_len_threshold <=? len b
+  then (if fs_len_max <? len b then Exc else Ok (be 2 (61440 + len b) ++ b))   (* 0xf000 | len *)
+  else match b with [] => Exc | _ => Ok (len b :: b) end.
+
+(** construct_nlri *)
 Definition fs_construct_nlri (f : flow) : res bytes :=
   bind (fs_opt_prefix c_BGPNLRI_FSPEC_DST_PFIX (f_dst f)) (fun b1 =>
   bind (fs_opt_prefix c_BGPNLRI_FSPEC_SRC_PFIX (f_src f)) (fun b2 =>
   bind (fs_construct_comps fs_op_types (f_ops f)) (fun b3 =>
-  let b := b1 ++ b2 ++ b3 in
-  if 240 <=? len b then (if 4095 <? len b then Exc else Ok (be 2 (61440 + len b) ++ b))   (* 0xf000 | len *)
-  else match b with [] => Exc | _ => Ok (len b :: b) end))).
+  fs_frame (b1 ++ b2 ++ b3)))).
 
 Fixpoint fs_construct (fs : list flow) : res bytes :=
   match fs with
@@ -141,21 +149,32 @@ Fixpoint fs_parse (fuel : nat) (d : bytes) (acc : list (N * comp)) : res (list (
       end
   end.
 
+(** the length prefix as the NLRI loop of MpReachNLRI.parse / MpUnReachNLRI.parse reads it:
+    (octets of the first rule, octets after it).  `length >> 4 == 0xf and len(nlri_bin) > 2`
+    selects the 2-octet form, whose value is used as it stands (0xf000 is not masked off), so
+    the slice runs to the end of the attribute *)
+Definition fs_unframe (d : bytes) : bytes * bytes :=
+  match d with
+  | [] => ([], [])
+  | l0 :: _ =>
+      let two := (l0 / 16 =? 15) && (Nat.ltb 2 (length d)) in
+      let l := if two then N.to_nat (unbe (take 2 d)) else N.to_nat l0 in
+      let h := if two then 2%nat else 1%nat in
+      (slice h (l + h) d, drop (l + h) d)
+  end.
+
 (** the NLRI loop of MpReachNLRI.parse / MpUnReachNLRI.parse for (1, 133): 1- or 2-octet length
-    (the 2-octet form is read without masking the 0xf nibble); empty rules are dropped *)
+    ([fs_unframe]); empty rules are dropped *)
 Fixpoint fs_parse_nlris (fuel : nat) (d : bytes) : res (list (list (N * comp))) :=
   match fuel with
   | O => Fuel
   | S f =>
       match d with
       | [] => Ok []
-      | l0 :: _ =>
-          let two := (l0 / 16 =? 15) && (Nat.ltb 2 (length d)) in
-          let l := if two then N.to_nat (unbe (take 2 d)) else N.to_nat l0 in
-          let h := if two then 2%nat else 1%nat in
-          let body := slice h (l + h) d in
+      | _ :: _ =>
+          let '(body, rest) := fs_unframe d in
           bind (fs_parse (S (length body)) body []) (fun r =>
-          bind (fs_parse_nlris f (drop (l + h) d)) (fun t =>
+          bind (fs_parse_nlris f rest) (fun t =>
           Ok (match r with [] => t | _ => r :: t end)))
       end
   end.
